@@ -1,44 +1,8 @@
 // ================================================================================================
-// src/storage/mod.rs :: trait Storage ; src/taskdb/mod.rs :: TaskDb
+// src/taskdb/mod.rs :: TaskDb::commit_operations
 // ================================================================================================
 //@props C05 C15
-//@extract src/storage/mod.rs :: trait Storage
-pub trait Storage: Send {
-    fn txn<'a>(&'a mut self) -> (r: Result<Box<dyn StorageTxn + 'a>>)
-        ensures match r {
-            // a fresh transaction: nothing committed yet, working set well formed
-            Ok(t) => t.inv() && t.st() == t.stored() && ws_wf(t.st().ws),
-            Err(e) => storage_err(e),
-        },
-    ;
-}
-//@end
-//@extract src/taskdb/mod.rs :: struct TaskDb
-pub struct TaskDb<S: Storage> {
-    pub storage: S,
-}
-//@end
 pub mod apply { pub use super::apply_operations; }
-/// u is the task of one of the first n operations
-pub open spec fn uuid_among(ops: Seq<Operation>, n: int, u: Uuid) -> bool {
-    exists|i: int| 0 <= i < n && op_uuid(#[trigger] ops[i]) == Some(u)
-}
-pub open spec fn no_dups(s: Seq<Uuid>) -> bool { forall|i: int, j: int| 0 <= i < j < s.len() ==> s[i] != s[j] }
-pub open spec fn wrap_some(s: Seq<Uuid>) -> Seq<Option<Uuid>> { s.map_values(|u: Uuid| Some(u)) }
-/// what TaskDb::commit_operations hands to `commit` (C05, C15), relative to the transaction's initial view s0
-pub open spec fn commit_ops_final<F: Fn(&Operation) -> bool>(f: F, s0: TxnView, ops: Seq<Operation>, s: TxnView, added: Seq<Uuid>) -> bool {
-    // C05: tasks as if the operations were applied one at a time; operations recorded in order after the existing ones
-    &&& s.tasks =~~= apply_l_seq(s0.tasks, ops)
-    &&& s.unsynced == s0.unsynced + ops
-    &&& s.synced == s0.synced && s.base == s0.base
-    // C15: existing working-set numbers are untouched, newcomers are appended at the end, each once
-    &&& s.ws == s0.ws + wrap_some(added)
-    &&& no_dups(added)
-    &&& forall|i: int| 0 <= i < added.len() ==> !somes(s0.ws).contains(#[trigger] added[i])
-    // every operation the caller flags puts its task into the working set
-    &&& forall|i: int| #![trigger ops[i]] 0 <= i < ops.len() && op_uuid(ops[i]) is Some && f.ensures((&ops[i],), true)
-            ==> somes(s.ws).contains(op_uuid(ops[i])->Some_0)
-}
 impl<S: Storage> TaskDb<S> {
 //@extract src/taskdb/mod.rs :: impl<S: Storage> TaskDb<S> :: fn commit_operations | R17 R19
     pub fn commit_operations<F>(
@@ -64,7 +28,7 @@ impl<S: Storage> TaskDb<S> {
                 forall|j: int| 0 <= j < ops0.len() ==> *(#[trigger] it_operation.seq()[j]) == ops0[j],
                 forall|o: &Operation| #[trigger] add_to_working_set.requires((o,)),
                 forall|o: &Operation, b1: bool, b2: bool| add_to_working_set.ensures((o,), b1) && add_to_working_set.ensures((o,), b2) ==> b1 == b2,
-                forall|j: int| 0 <= j < to_add@.len() ==> uuid_among(ops0, it_operation.index() as int, #[trigger] to_add@[j]),
+                forall|j: int| 0 <= j < to_add@.len() ==> uuid_among(add_to_working_set, ops0, it_operation.index() as int, #[trigger] to_add@[j]),
                 forall|i: int| #![trigger ops0[i]] 0 <= i < it_operation.index() && op_uuid(ops0[i]) is Some && add_to_working_set.ensures((&ops0[i],), true)
                     ==> to_add@.contains(op_uuid(ops0[i])->Some_0),
         {
@@ -80,10 +44,10 @@ impl<S: Storage> TaskDb<S> {
             }
             proof {
                 assert(*operation == ops0[k]);
-                assert forall|j: int| 0 <= j < to_add@.len() implies uuid_among(ops0, k + 1, #[trigger] to_add@[j]) by {
+                assert forall|j: int| 0 <= j < to_add@.len() implies uuid_among(add_to_working_set, ops0, k + 1, #[trigger] to_add@[j]) by {
                     if j < ta0.len() {
-                        assert(uuid_among(ops0, k, ta0[j]));
-                        let i = choose|i: int| 0 <= i < k && op_uuid(#[trigger] ops0[i]) == Some(ta0[j]);
+                        assert(uuid_among(add_to_working_set, ops0, k, ta0[j]));
+                        let i = choose|i: int| 0 <= i < k && op_uuid(#[trigger] ops0[i]) == Some(ta0[j]) && add_to_working_set.ensures((&ops0[i],), true);
                         assert(op_uuid(ops0[i]) == Some(to_add@[j]));
                     } else {
                         assert(op_uuid(ops0[k]) == Some(to_add@[j]));
@@ -108,6 +72,8 @@ impl<S: Storage> TaskDb<S> {
         for uuid in it_uuid: to_add
             invariant
                 it_uuid.seq() == ta, txn.inv(),
+                forall|j: int| 0 <= j < ta.len() ==> uuid_among(add_to_working_set, ops0, ops0.len() as int, #[trigger] ta[j]),
+                forall|i: int| 0 <= i < added.len() ==> uuid_among(add_to_working_set, ops0, ops0.len() as int, #[trigger] added[i]),
                 txn.st() == (TxnView { ws: s1.ws + wrap_some(added), ..s1 }),
                 working_set@ == somes(s1.ws + wrap_some(added)),
                 no_dups(added),
